@@ -37,7 +37,7 @@ CLAIMS = {
             "moved to trash/ only under dec()==true and strong_count==1, versions are referenced before publication, the "
             "verifier unlinks only what a durable intent names and only after verify_one, the orphan scan skips roll-ups and "
             "only renames, folds fragments in numeric order and runs only while the tree is being opened; a new version is derived from the "
-            "version current at installation and installed only after the manifest edit removing its predecessor's files (C02.4 re-evaluated); scan cursors own the VersionRef pinning their files.  Every function that replaces the current version references the new version's files first and unreferences the outgoing version afterwards; the last holder's unref depends on nothing but strong_count == 1.  Does not decide that reference counts are "
+            "version current at installation and installed only after the manifest edit removing its predecessor's files (C02.4 re-evaluated); scan cursors own the VersionRef pinning their files.  Every function that replaces the current version references the new version's files first and unreferences the outgoing version afterwards; the last holder's unref depends on nothing but strong_count == 1.  The verifier schedules a removed file for unlinking only if the same edit does not add it back (C08.7, sibling of the orphan scan).  Does not decide that reference counts are "
             "numerically right for every history.", "§4 C08"),
     "C04": ("equality-gate table (GUARDED fail-closed Setsum comparisons), ORDER of Edit::info I/O/D before apply, accumulator MUSTPASS, loop-body MUSTPASS for GC discard",
             "Decides presence and placement of every balance gate and accumulator: compaction commit only on input == output + "
@@ -45,7 +45,7 @@ CLAIMS = {
             "accumulate every entry and seal writes that digest, GC adds each dropped entry to the discard it reports, the "
             "verifier's gates exist, fail closed and dominate its verdict, every edit refreshes the state the final gate checks, and "
             "the verifier reads every file a transaction adds and recomputes its setsum (the necessary condition of rejecting an "
-            "altered output).  The GC replay accepts only once the replayed collector is exhausted (a retained key in no output is a loss wherever it sorts).  Every compaction output that is summed into 'O' is named by the edit (C05.3).  The 'I' of the edit a replayed log writes derives from the manifest's 'O' read in recover_one itself, not from a value handed in (C04.2).  Does not decide that the numbers are right for every history or that every tamper is rejected.", "§4 C04"),
+            "altered output).  The GC replay accepts only once the replayed collector is exhausted (a retained key in no output is a loss wherever it sorts).  Every compaction output that is summed into 'O' is named by the edit (C05.3).  The 'I' of the edit a replayed log writes derives from the manifest's 'O' read in recover_one itself, not from a value handed in (C04.2).  A same-file compaction (`-A +A` in one edit) is not waited for in trash/ by the verifier (C08.7).  Does not decide that the numbers are right for every history or that every tamper is rejected.", "§4 C04"),
     "C05": ("who-may-call + GUARDED (GC only under top_level), loop-body MUSTPASS (every entry read is written; every input/output wired; every policy child consulted), per-key state reset analysis, accumulator shape of the policy combinators, ORIGIN",
             "Decides rewrite completeness and GC confinement: GC is reachable only on the top_level edge and only with the "
             "configured policy; a plain compaction writes every entry it reads and leaves its loop only at end of input; "
